@@ -46,7 +46,7 @@ EXTRA_VALUES = {
 def shards(tier):
     out = [{"kind": "positive", "slice": [i, 8]} for i in range(8)]
     out += [{"kind": "extras", "slice": [i, 4]} for i in range(4)]
-    out += [{"kind": "cli"}, {"kind": "keystore"}, {"kind": "key-bits"}, {"kind": "sequences"}, {"kind": "fill"}, {"kind": "short-tag"}]
+    out += [{"kind": "cli"}, {"kind": "keystore"}, {"kind": "key-bits"}, {"kind": "sequences"}, {"kind": "fill"}, {"kind": "short-tag"}, {"kind": "many-attrs"}, {"kind": "keystore-chars"}]
     deltas = [1, 0x80, 0xFF]
     for i in range(16):
         out.append({"kind": "tamper", "payload": 1, "deltas": deltas if tier == "quick" else list(range(1, 256)), "slice": [i, 16]})
@@ -93,6 +93,15 @@ def run_shard(shard, ctx):
             run_case({"kind": "keystore", "l1": 16, "l2": 16, "style": 0, "order": order}, ctx)
     elif kind == "key-bits":
         run_case({"kind": "key-bits"}, ctx)
+    elif kind == "many-attrs":
+        # hundreds of small attributes in one header block (8 bytes each), the required ones first, last or in the middle
+        for n in (100, 250, 251, 252, 253, 254, 255, 256, 257, 300, 400, 420):
+            for where in ("first", "last", "middle"):
+                run_case({"kind": "many-attrs", "n": n, "where": where}, ctx)
+    elif kind == "keystore-chars":
+        for ch in KS_CHARS:
+            for form in ("comment-with-old-entry", "comment-with-other-mode", "around-fields", "in-unrelated-value"):
+                run_case({"kind": "keystore-chars", "ch": ch, "form": form}, ctx)
     elif kind == "short-tag":
         # the footer declares a tag of n < 16 bytes and the stored tag differs from the true one beyond its first n bytes:
         # whichever length a reader uses, the tag it is given is not the tag of this envelope
@@ -110,6 +119,9 @@ def run_shard(shard, ctx):
                 run_case({"kind": "fill", "unused": unused, "type": typ}, ctx)
     else:
         run_case({"kind": "tamper", "payload": shard["payload"], "deltas": shard["deltas"], "slice": shard["slice"]}, ctx)
+
+
+KS_CHARS = ["\x0b", "\x0c", "\x1c", "\x1d", "\x1e", "\x85", "\u2028", "\u2029", "\r", "\t", "\xa0"]
 
 
 def _attrs(order, extras=(), where=0):
@@ -205,6 +217,43 @@ def run_case(case, ctx):
                 else:
                     ctx.outcome("refused-aad" if what in "AN" else "refused-key")
             return
+        if kind == "many-attrs":
+            std = B.standard_attrs(KEY, IV)
+            small = [(1, i % 2, "%c%c" % (97 + i // 26 % 26, 97 + i % 26), i % 256) for i in range(case["n"])]
+            attrs = {"first": std + small, "last": small + std, "middle": small[:7] + std[:2] + small[7:] + std[2:]}[case["where"]]
+            payload = B.det("payload", 300)
+            img, regions = B.build(payload, KEY, IV, attrs, None, 2)
+            ctx.nontrivial += 1
+            ctx.transitions += 2
+            ctx.states += 2
+            try:
+                got = _decrypt(img, None)
+            except Exception as e:
+                ctx.violation(case, {"subject": "envelope.decrypt", "kind": "valid-envelope-refused", "exc": type(e).__name__},
+                              {"exception": repr(e)[:300], "attributes": len(attrs)})
+                return
+            if got != payload:
+                ctx.violation(case, {"subject": "envelope.decrypt", "kind": "wrong-payload"}, {"attributes": len(attrs)})
+                return
+            ctx.outcome("decrypted")
+            # the value of the last small attribute altered: refused
+            a0, a1 = regions["attrs"]
+            roles = B.attr_byte_roles(attrs)
+            pos = max(p for p in range(a0, a1) if roles[p - a0] == "value" and p - a0 < len(roles))
+            if case["where"] == "last":
+                pos = a0 + 8 * (case["n"] - 1) + 7
+            t = bytearray(img)
+            t[pos] ^= 0x01
+            try:
+                _decrypt(bytes(t), None)
+            except Exception:
+                ctx.outcome("refused-attr")
+                return
+            ctx.violation(case, {"subject": "envelope.decrypt", "kind": "tamper-accepted", "region": "attr-value"},
+                          {"attributes": len(attrs), "pos": pos})
+            return
+        if kind == "keystore-chars":
+            return _case_keystore_chars(case, ctx)
         if kind == "fill":
             std = B.standard_attrs(KEY, IV)
             base = sum(len(B.pack_attr(*a)) for a in std)
@@ -370,6 +419,48 @@ def _case_cli(case, ctx):
                           {"rc": rc, "len_got": None if got is None else len(got), "len_expected": len(payload), "files": after})
             return
         ctx.outcome("cli")
+
+
+def _case_keystore_chars(case, ctx):
+    """Characters that some text routine takes for a line boundary or for white space, inside comment lines that carry old
+    entries, around the ConfigEncData fields and inside an unrelated value: the only line separator of the format is LF."""
+    import uuid
+
+    from dissect.hypervisor.util.envelope import KeyStore
+
+    ch, form = case["ch"], case["form"]
+    kid, d1, d2 = B.det("kid-c", 16), B.det("d1-c", 16), B.det("d2-c", 24)
+    text = B.keystore_text(kid, d1, d2)
+    old = B.keystore_text(B.det("old-kid", 16), B.det("old1", 16), B.det("old2", 16)).split("\n")
+    old_ced = [ln for ln in old if ln.startswith("ConfigEncData")][0]
+    expect_ok = True
+    if form == "comment-with-old-entry":
+        text += "# previous" + ch + old_ced + "\n"
+    elif form == "comment-with-other-mode":
+        text += "# was" + ch + 'mode = "TPM"' + "\n"
+    elif form == "around-fields":
+        if ch in ("\r", "\t", "\x0b", "\x0c", "\x1c", "\x1d", "\x1e", "\x85", "\u2028", "\u2029", "\xa0"):
+            text = text.replace(":data1=", ch + ":" + ch + "data1=")
+        expect_ok = None  # white space around the fields: accepted (stripped) or refused, never another key
+    else:
+        text += 'annotation = "a' + ch + 'mode = TPM"' + "\n"
+    ctx.nontrivial += 1
+    ctx.transitions += 1
+    ctx.states += 1
+    try:
+        ks = KeyStore.from_text(text)
+        key, kidstr = ks.key, ks.id
+    except Exception as e:
+        if expect_ok:
+            ctx.violation(case, {"subject": "keystore", "kind": "exception", "exc": type(e).__name__, "form": form},
+                          {"exception": repr(e)[:300], "char": repr(ch)})
+        else:
+            ctx.outcome("keystore")
+        return
+    if key != B.derive_key(d1, d2) or kidstr != str(uuid.UUID(bytes=kid)):
+        ctx.violation(case, {"subject": "keystore", "kind": "mismatch", "form": form}, {"char": repr(ch), "id": kidstr})
+        return
+    ctx.outcome("keystore")
 
 
 def _case_keystore(case, ctx):
